@@ -6,7 +6,7 @@ From Coq Require String.
 Import String.StringSyntax.
 Import ListNotations.
 From OV Require Import Base.Bytes Base.Utf8 Base.Cases Base.Tree Model.Csv Model.Fixed Model.Delim
-  Proofs.DelimUtf8 Proofs.DelimCsv Proofs.DelimFixed Proofs.DelimReaders.
+  Proofs.DelimUtf8 Proofs.DelimCsv Proofs.DelimFixed Proofs.DelimReaders Proofs.DelimLine Proofs.DelimCsv2.
 Local Open Scope string_scope.
 Local Open Scope list_scope.
 
@@ -129,35 +129,57 @@ Example csv_header_nonvacuous :
   /\ run_reads ost (old_read trim_space d) 3 (old_init d (hx "613b630a313b320a")) = [OFatal].
 Proof. vm_compute. auto. Qed.
 
-(* ---- csv2: the record buffer ---------------------------------------------------------------------------
-   Full statement (csv2_column_fidelity): for every declaration list and every input, each delivered
-   record node holds, per declared column, field `index` of the row selected by line_index /
-   line_pattern among the record's rows ("" beyond the row; no row selected: absent), and rows are
-   consumed in input order.
-   Proved: [rep s rows] (the reader-owned records slice + (recordStart, recordNum) denote exactly
-   the rows read and not yet consumed) is preserved by every buffer operation - readLine appends the
-   record encoding/csv returned, popFront n drops the first n rows and shifts the rest, matchLine sees
-   the row joined by the delimiter (the raw cache is invisible), a column value is field `index`
-   of its row or "" - no slice index is out of range; linesToNode + popFront build node_spec of the
-   first n buffered rows; and a rows based ReadAndMatch delivers node_spec of the next n rows in
-   reading order and consumes exactly those (csv2_column_fidelity_rows_partial).
-   Missing: the same composition for the header/footer loop, and the hierarchy reader above
-   ReadAndMatch (C05's subject); both are validated by the correspondence runs. *)
-Theorem csv2_column_fidelity_rows_partial : forall re_match comma delim d n s rows t s',
+(* ---- csv2 ---------------------------------------------------------------------------------------------
+   csv2_column_fidelity, at the level of the record reader (flatfile.RecReader) and for every
+   declaration, every input and every sequence of calls a hierarchy reader can make:
+   - [rep s rows]: the reader-owned records slice + each line's (recordStart, recordNum) denote
+     exactly the rows read and not yet consumed; preserved by readLine (appends the record
+     encoding/csv returned), popFront (drops the first n rows, shifts the rest), matchLine (sees the
+     row joined by the delimiter; the raw cache is invisible); a column value is field `index` of
+     its row or ""; no slice index is out of range;
+   - a rows based ReadAndMatch delivers node_spec of the next n rows, a header/footer based one
+     node_spec of the rows from the header row to the first row matching the footer, and consumes
+     exactly those rows (node_spec: per declared column, in declaration order, field `index` of the
+     first row selected by line_index / line_pattern, "" beyond the row, absent if no row is selected);
+   - over any call sequence the delivered nodes are node_spec of consecutive segments of the record
+     stream of the input and their concatenation is exactly the consumed prefix (input order, nothing
+     skipped, nothing delivered twice), and no call panics.
+   Not covered here: which calls the hierarchy reader makes (C05). *)
+Theorem csv2_column_fidelity_rows : forall re_match comma delim d n s rows t s',
   rep delim s rows -> q_shape d = Rows n ->
   read_and_match2 re_match comma delim d true s = (Ok (true, Some t), s') ->
   exists more, t = node_spec re_match delim d (firstn n (rows ++ more))
                /\ rep delim s' (skipn n (rows ++ more)).
 Proof. exact csv2_rows_record_proof. Qed.
 
-Theorem csv2_lines_to_node_partial : forall re_match delim d n s rows,
+Theorem csv2_column_fidelity_header_footer : forall re_match comma delim d header footer s rows t s',
+  rep delim s rows -> q_shape d = HeaderFooter header footer ->
+  read_and_match2 re_match comma delim d true s = (Ok (true, Some t), s') ->
+  exists more j row0,
+    nth_error (rows ++ more) 0 = Some row0 /\ re_match header (join delim row0) = true
+    /\ first_footer re_match delim footer (rows ++ more) 0 j
+    /\ t = node_spec re_match delim d (firstn (S j) (rows ++ more))
+    /\ rep delim s' (skipn (S j) (rows ++ more)).
+Proof. exact csv2_hf_record_proof. Qed.
+
+Theorem csv2_delivery_order : forall re_match comma delim replace input ops,
+  let s0 := csv2_init replace input in
+  let '(es, dls, s') := run2 re_match comma delim s0 ops in
+  exists all segs k,
+    stream comma (s_c s0) (s_c s') all /\ rep delim s' (skipn k all)
+    /\ Forall (fun e => forall p, e <> Some (OPanic p)) es
+    /\ Forall2 (fun dt seg => snd dt = node_spec re_match delim (fst dt) seg) dls segs
+    /\ concat segs = firstn k all.
+Proof. exact csv2_sequence_proof. Qed.
+
+Theorem csv2_lines_to_node : forall re_match delim d n s rows,
   rep delim s rows -> n <= length rows ->
   exists s', take_record2 re_match delim d n true s
              = (Ok (true, Some (node_spec re_match delim d (firstn n rows))), s')
              /\ rep delim s' (skipn n rows) /\ s_c s' = s_c s.
 Proof. exact take_record2_rep. Qed.
 
-Theorem csv2_readline_appends_partial : forall delim comma s rows, rep delim s rows ->
+Theorem csv2_readline_appends : forall delim comma s rows, rep delim s rows ->
   match csv_next comma (s_c s) with
   | (CRec rec, c') => exists s', c2_readline comma s = (Ok true, s') /\ rep delim s' (rows ++ [rec]) /\ s_c s' = c'
   | (CEOF, c') => exists s', c2_readline comma s = (Ok false, s') /\ rep delim s' rows /\ s_c s' = c'
@@ -165,17 +187,17 @@ Theorem csv2_readline_appends_partial : forall delim comma s rows, rep delim s r
   end.
 Proof. exact (fun delim comma => c2_readline_rep comma delim). Qed.
 
-Theorem csv2_pop_front_partial : forall delim s rows n, rep delim s rows -> n <= length rows ->
+Theorem csv2_pop_front : forall delim s rows n, rep delim s rows -> n <= length rows ->
   exists s', pop_front2 n s = (Ok tt, s') /\ rep delim s' (skipn n rows) /\ s_c s' = s_c s.
 Proof. exact pop_front2_rep. Qed.
 
-Theorem csv2_column_value_partial : forall delim s rows i l row c, rep delim s rows ->
+Theorem csv2_column_value : forall delim s rows i l row c, rep delim s rows ->
   nth_error (s_lines s) i = Some l -> nth_error rows i = Some row ->
   col_value2 c l (s_records s) =
   Ok (if (k_index c <? 1) || (length row <? k_index c) then [] else nth (k_index c - 1) row []).
 Proof. exact col_value2_rep. Qed.
 
-Theorem csv2_match_line_partial : forall re_match delim p s rows i row,
+Theorem csv2_match_line : forall re_match delim p s rows i row,
   rep delim s rows -> nth_error rows i = Some row ->
   exists s', match_line re_match delim p i s = (Ok (re_match p (join delim row)), s')
              /\ rep delim s' rows /\ s_c s' = s_c s.
@@ -214,20 +236,36 @@ Example fixed2_nonvacuous :
 Proof. vm_compute. auto. Qed.
 
 (* ---- the line reader (go-corelib ios.ByteReadLine over a 4096-byte bufio.Reader) ---------------------- *)
-(* Full statement: for every text, read_line = ideal_read_line.  FALSE on the unchanged tree
-   (known finding F22, fixed_last_line_refuted).  Proved under the guard line_fits (the line with
-   its terminator fits the buffer, or it is the unterminated last line and shorter than the
-   buffer); lines longer than the buffer are covered by the correspondence runs only. *)
-Theorem read_line_ideal_partial : forall T, line_fits T -> read_line T = ideal_read_line T.
-Proof. exact read_line_ideal_partial. Qed.
+(* every LF-terminated line, of ANY length (fragments of the buffer size are joined, a CR at the end
+   of a fragment is put back so that CRLF straddling a fragment boundary is still recognised): the
+   text up to the LF without a CR directly before it *)
+Theorem read_line_terminated : forall T x r,
+  split_lf T = (x, Some r) -> read_line T = RLOk (strip_last CR x) r.
+Proof. exact read_line_terminated_proof. Qed.
+
+(* Full statement: for every text, read_line = ideal_read_line.  FALSE on the unchanged tree (known
+   finding F22, fixed_last_line_refuted); proved under the named guard f22_guard: the text contains
+   an LF, or the unterminated last line is shorter than the buffer. *)
+Theorem read_line_ideal : forall T, f22_guard T -> read_line T = ideal_read_line T.
+Proof. exact read_line_ideal_proof. Qed.
+
+(* F22 exactly, for text without CR: an unterminated last line is lost iff its length is a positive
+   multiple of the buffer size *)
+Theorem read_line_unterminated_exact : forall x,
+  mem_byte LF x = false -> mem_byte CR x = false -> x <> [] ->
+  read_line x = if Nat.eqb (length x mod BUFSZ) 0 then RLEof else RLOk x [].
+Proof. exact read_line_unterminated_proof. Qed.
 
 Theorem fixed_last_line_refuted :
   exists T, T <> [] /\ read_line T = RLEof /\ ideal_read_line T = RLOk T [].
 Proof. exact fixed_last_line_refuted_proof. Qed.
 
-Example line_fits_nonvacuous : line_fits (hx "61620d0a63") /\ read_line (hx "61620d0a63") = RLOk (hx "6162") (hx "63").
+Example f22_guard_nonvacuous :
+  f22_guard (hx "61620d0a63") /\ read_line (hx "61620d0a63") = RLOk (hx "6162") (hx "63")
+  (* a 4097-byte line "a...a\r" + LF: the CR is the first byte of the second fragment *)
+  /\ read_line (repeat x61 4096 ++ hx "0d0a62") = RLOk (repeat x61 4096) (hx "62").
 Proof.
-  split; [|vm_compute; reflexivity]. unfold line_fits.
+  split; [|split; vm_compute; reflexivity]. unfold f22_guard.
   replace (split_lf (hx "61620d0a63")) with (hx "61620d", Some (hx "63")) by (vm_compute; reflexivity).
-  apply Nat.ltb_lt. vm_compute. reflexivity.
+  exact I.
 Qed.
